@@ -1,12 +1,90 @@
 import CTM.Drive.Util
+import CTM.Model.Sanitize
 open Lean
 
 namespace CTM.Drive.Sanitize
-open CTM CTM.Drive
+open CTM CTM.Drive CTM.Sanitize
 
-/-- ops of this module (stub: none yet) -/
-def handle : Handler := fun op _inp =>
+def asChars (j : Json) : R Str := (asStr j).map String.toList
+def jChars (s : Str) : Json := jStr (String.ofList s)
+
+/-- host = {"existing": [path strings in `str(Path)` form], "resolve": [[path, resolved]],
+"mapperRoot": str} -/
+def parseHost (j : Json) : R Host := do
+  let existing ← asList asChars (fieldD j "existing" (Json.arr #[]))
+  let res ← asList (asPair asChars asChars) (fieldD j "resolve" (Json.arr #[]))
+  let root ← asChars (fieldD j "mapperRoot" (Json.str "/nonexistent-mapper-root"))
+  return {
+    ex := fun p => existing.contains p.toStr,
+    resolve := fun p => match res.find? (fun kv => kv.1 == p.toStr) with
+      | some kv => kv.2
+      | none => p.toStr,
+    mapperRoot := root }
+
+/-- values travel as {"s": str} | {"l": [..]} | {"d": [[key, value], ..]} | {"o": n}
+(JSON objects would lose the dict order) -/
+partial def parseVal (j : Json) : R Val := do
+  match j.getObjVal? "s" with
+  | .ok s => return .str (← asChars s)
+  | .error _ =>
+  match j.getObjVal? "l" with
+  | .ok l => return .list (← asList parseVal l)
+  | .error _ =>
+  match j.getObjVal? "d" with
+  | .ok d => return .dict (← asList (asPair asChars parseVal) d)
+  | .error _ => return .other (← asNat (← field j "o"))
+
+partial def jVal : Val → Json
+  | .str s => jObj [("s", jChars s)]
+  | .list xs => jObj [("l", jList jVal xs)]
+  | .dict kvs => jObj [("d", jList (jPair jChars jVal) kvs)]
+  | .other t => jObj [("o", jNat t)]
+
+def sanErrName : SanErr → String
+  | .relativeTo => "relativeTo"
+
+def jSan {α} (f : α → Json) : Except SanErr α → Json
+  | .ok a => jObj [("ok", f a)]
+  | .error e => jObj [("err", jStr (sanErrName e))]
+
+def jCfg {α} (f : α → Json) : Except CfgErr α → Json
+  | .ok a => jObj [("ok", f a)]
+  | .error (.san e) => jObj [("err", jStr (sanErrName e))]
+  | .error (.keyError k) => jObj [("err", jStr ("KeyError:" ++ String.ofList k))]
+
+def handle : Handler := fun op inp =>
   match op with
+  | "sanitize.str" => some do
+      let h ← parseHost (← field inp "host")
+      let s ← asChars (← field inp "s")
+      let words := splitWs s
+      return jObj [
+        ("result", jSan jChars (sanitizeStr h s)),
+        ("words", jList (fun w =>
+            let p := wordToPath w
+            Json.arr #[jChars w, jChars p.toStr, jBool (isExposed h.ex p)]) words)]
+  | "sanitize.val" => some do
+      let h ← parseHost (← field inp "host")
+      let v ← parseVal (← field inp "v")
+      return jSan jVal (sanitizeVal h v)
+  | "sanitize.config" => some do
+      let h ← parseHost (← field inp "host")
+      let cs ← asBool (← field inp "cloudSafe")
+      let v ← parseVal (← field inp "config")
+      match v with
+      | .dict kvs => return jCfg (fun c => jVal (.dict c)) (safeConfig h cs kvs)
+      | _ => .error "config must be a dict"
+  | "sanitize.log" => some do
+      let h ← parseHost (← field inp "host")
+      let cs ← asBool (← field inp "cloudSafe")
+      let log ← asList asChars (← field inp "log")
+      return jSan (jList jChars) (outputLog h cs log)
+  | "sanitize.parse" => some do
+      let s ← asChars (← field inp "s")
+      let p := parsePath s
+      return jObj [("root", jNat p.root), ("parts", jList jChars p.parts),
+                   ("str", jChars p.toStr), ("name", jChars p.name),
+                   ("parent", jChars p.parent.toStr)]
   | _ => none
 
 end CTM.Drive.Sanitize
